@@ -342,9 +342,12 @@ def modelPaths : List (String × Bool × String) := [
   ("false", true, actTok (verdict true (.done true false false)).act ++ "|" ++
                   actTok (verdict true (.done false false false)).act)]
 
-/-- the three conjuncts under which `Do` goes round again -/
+/-- the conjuncts under which `Do` goes round again.  `!bodyIsStream` (/repo 3183d35: whether the body is a stream is
+noted before the first attempt, which drops the stream from the request) is constantly true for the requests of this
+property - their bodies are byte bodies (`SetBodyString`), so `idem` in `doLoop`/`Sim` stays "idempotent method"; the
+stream case is modelled and checked under C11 (`Http1/Exchange`, `Req.retryable`). -/
 def doRetryCond : List String :=
-  ["canIdempotentRetry", "client.DefaultRetryIf(req, resp, err)", "errors.Is(err, errs.ErrBadPoolConn)"]
+  ["canIdempotentRetry", "!bodyIsStream", "client.DefaultRetryIf(req, resp, err)", "errors.Is(err, errs.ErrBadPoolConn)"]
 
 /-- for every `return` of `HostClient.Do`, in source order (the `ctx.Done()` arm, the end): is it
 preceded by `atomic.AddInt32(&c.pendingRequests, -1)` -/
